@@ -17,21 +17,19 @@ fn main() {
         std::process::exit(2);
     }
     // Panic messages are observations, not noise on stderr.
-    let last_panic: std::sync::Arc<std::sync::Mutex<Option<String>>> = Default::default();
-    {
-        let lp = last_panic.clone();
-        std::panic::set_hook(Box::new(move |info| {
-            let loc = info
-                .location()
-                .map(|l| {
-                    let f = l.file();
-                    let f = f.rsplit("/src/").next().unwrap_or(f);
-                    format!("{}:{}", f, l.line())
-                })
-                .unwrap_or_default();
-            *lp.lock().unwrap() = Some(loc);
-        }));
-    }
+    std::panic::set_hook(Box::new(move |info| {
+        let loc = info
+            .location()
+            .map(|l| {
+                let f = l.file();
+                let f = f.rsplit("/src/").next().unwrap_or(f);
+                format!("{}:{}", f, l.line())
+            })
+            .unwrap_or_default();
+        if let Ok(mut g) = amq_harness::LAST_PANIC.lock() {
+            *g = Some(loc);
+        }
+    }));
     let stdin = std::io::stdin();
     let stdout = std::io::stdout();
     let mut w = std::io::BufWriter::new(stdout.lock());
@@ -61,8 +59,9 @@ fn main() {
             writeln!(w, "{}", o).unwrap();
         }
         if r.is_err() {
-            let loc = last_panic.lock().unwrap().take().unwrap_or_default();
-            writeln!(w, "PANIC {}", loc).unwrap();
+            let loc = amq_harness::take_last_panic().unwrap_or_default();
+            writeln!(w, "# panic at {}", loc).unwrap();
+            writeln!(w, "PANIC").unwrap();
             poisoned = true;
         }
     }
